@@ -42,9 +42,11 @@ RULE = ("cases = abstract token x key set x mechanism assertions x rule-level ov
         "acceptance under a rule-level override or with more than one published key")
 
 
-def design_run(work, verdict):
+def design_run(work, verdict, tier):
+    # quick: claims family pruned by independence (Full = FALSE); thorough: its full product
+    cfg = "JwtAcceptMC.cfg" if tier == "quick" else "JwtAcceptMC_full.cfg"
     with ThreadPoolExecutor(max_workers=4) as ex:
-        main = ex.submit(tlc_expect_ok, work, "JwtAcceptMC", "JwtAcceptMC.cfg", workers=6, timeout=900)
+        main = ex.submit(tlc_expect_ok, work, "JwtAcceptMC", cfg, workers=6, timeout=900)
         vac = ex.submit(tlc_expect_violation, work, "JwtAcceptMC", "JwtAcceptMC_vacuity.cfg", "SomeAccepted",
                         workers=1, timeout=600)
         muts = {m: ex.submit(tlc_expect_violation, work, "JwtAcceptMC", "JwtAcceptMC_%s.cfg" % m, inv,
@@ -55,7 +57,7 @@ def design_run(work, verdict):
     verdict.coverage["states"] = r.distinct
     verdict.coverage["transitions"] = r.generated
     verdict.coverage["design_run"] = {
-        "module": "JwtAcceptMC", "distinct_states": r.distinct, "generated": r.generated,
+        "module": "JwtAcceptMC", "config": cfg, "distinct_states": r.distinct, "generated": r.generated,
         "invariants": INVARIANTS, "liveness": "Terminates", "wall_s": round(r.wall, 1),
         "negative_controls_refuted": refuted,
         "vacuity_control": "acceptance is reachable (SomeAccepted refuted)",
@@ -205,7 +207,7 @@ def run(tier, seed, replay=None):
             return do_replay(work, binary, seed, replay)
 
         with ThreadPoolExecutor(max_workers=2) as ex:
-            d = ex.submit(design_run, work, verdict)
+            d = ex.submit(design_run, work, verdict, tier)
             pr = ex.submit(produce, work, binary, tier, seed)
             d.result()
             trace, ngen, stats = pr.result()
